@@ -27,7 +27,9 @@ Max2(a, b) == IF a > b THEN a ELSE b
 Track == TLCSet(1, Max2(TLCGet(1), l))
 \* A state that breaks a Layer A invariant is not an explanation: it is pruned (and does not
 \* count as progress), so an invariant can only fail the validation by leaving no explanation.
-TrackOk == ChanInv /\ Track
+\* Once every record is explained the search stops (TLC would otherwise go on to enumerate
+\* every alternative explanation).
+TrackOk == ChanInv /\ Track /\ (l = N + 1 => PrintT(<<"ACCEPTED", N>>) /\ TLCSet("exit", TRUE))
 
 R == Rec[l]
 Is(k) == l <= N /\ R.k = k
@@ -367,12 +369,14 @@ LinStep ==
 \* wakes nobody, so it does not count as waking the operation
 WakeStale == Is("wake_stale") /\ UNCHANGED <<chanVars, devs, aux>> /\ Next1
 
+\* (LinStep first: TLC's depth-first queue explores the successor generated last first,
+\*  so a record is consumed as soon as it can be and silent steps are tried lazily)
 Next ==
+  \/ LinStep
   \/ WakeStale
   \/ New \/ PollPending \/ Clone \/ CloneZombie \/ Quiesce \/ Hung \/ End \/ StrayDrop
   \/ Wake \/ Cancel
   \/ (Call \/ Ret \/ Close \/ HDrop \/ Conv \/ Obs) /\ UNCHANGED <<devs, aux>>
-  \/ LinStep
 
 Spec == Init /\ [][Next]_vars
 
